@@ -191,8 +191,9 @@ var stdInitAllow = map[string]bool{
 	"unicode/utf8": true, "bufio": true, "encoding/binary": true, "hash": true, "math": true,
 	"math/bits": true, "sort": true, "encoding/base64": true, "encoding/hex": true, "hash/crc64": true,
 	"container/list": true, "slices": true, "cmp": true, "io/ioutil": true, "internal/bytealg": false,
-	"hash/crc32": false, "internal/oserror": true, "io/fs": false, "path": true, "internal/itoa": true,
-	"internal/stringslite": true, "unicode/utf16": true,
+	"hash/crc32": false, "internal/oserror": true, "path": true, "internal/itoa": true,
+	"internal/stringslite": true, "unicode/utf16": true, "time": true,
+	"io/fs": true, "context": true, "log": true, "path/filepath": true, "encoding": true, "iter": true, "net/url": true, "os": true, "internal/godebug": true, "math/rand": true,
 }
 
 func isStd(path string) bool {
@@ -226,6 +227,11 @@ func (e *Engine) RunInit(pkg *ssa.Package) {
 	e.model = NewModel()
 	e.epoch = 0
 	e.runInitPkg(pkg)
+	if len(e.initSkipped) > 0 {
+		sort.Strings(e.initSkipped)
+		e.InitNotes = append(e.InitNotes, "standard-library packages whose initialisers are not executed (their package-level variables are zero unless modelled): "+strings.Join(e.initSkipped, " "))
+		e.initSkipped = nil
+	}
 	e.opts = saveOpts
 	e.res = nil
 }
@@ -236,6 +242,9 @@ func (e *Engine) runInitPkg(pkg *ssa.Package) {
 	}
 	e.initDone[pkg] = true
 	if !initAllowed(pkg.Pkg.Path()) {
+		if pkg.Func("init") != nil && len(pkg.Func("init").Blocks) > 0 {
+			e.initSkipped = append(e.initSkipped, pkg.Pkg.Path())
+		}
 		return
 	}
 	// dependencies first, in import order
